@@ -95,7 +95,9 @@ func (r *binaryReaderReader) Bytes(b []byte, n, off int64) ([]byte, error) {
 		m, err := r.r.Read(b[i:])
 		r.pos += int64(m)
 		i += m
-		if err != nil {
+		if err == io.EOF && i == int(n) {
+			break // EOF may be delivered together with the last bytes
+		} else if err != nil {
 			return b[:i], err
 		} else if m == 0 {
 			return b[:i], errors.New("reader: could not read all bytes")
@@ -142,7 +144,9 @@ func (r *binaryReaderSeeker) Bytes(b []byte, n, off int64) ([]byte, error) {
 	for i := 0; i < int(n); {
 		m, err := r.r.Read(b[i:])
 		i += m
-		if err != nil {
+		if err == io.EOF && i == int(n) {
+			break // EOF may be delivered together with the last bytes
+		} else if err != nil {
 			r.mu.Unlock()
 			return b[:i], err
 		} else if m == 0 {
@@ -183,7 +187,7 @@ func (r *binaryReaderReaderAt) Bytes(b []byte, n, off int64) ([]byte, error) {
 	} else if b == nil {
 		b = make([]byte, n)
 	}
-	if m, err := r.r.ReadAt(b, off); err != nil {
+	if m, err := r.r.ReadAt(b, off); err != nil && (err != io.EOF || int64(m) != n) {
 		return b[:m], err
 	} else if int64(m) != n {
 		return b[:m], errors.New("reader: could not read all bytes")
